@@ -33,9 +33,9 @@ type callResult struct {
 }
 
 type callStats struct {
-	Inputs, Calls, Distinct, Events                      int
+	Inputs, Calls, Distinct, Events                     int
 	WithErrors, Panics, DescPanics, DescErrors, Aborted int
-	MaxErrorsInOneCall                                   int
+	MaxErrorsInOneCall                                  int
 }
 
 func recordCall(data []byte, abort bool, specWidths []int) (events []string, feat string, err error) {
@@ -249,9 +249,12 @@ func runCalls(in *bufio.Scanner, out *bufio.Writer, testdata, inputsPath string,
 				st.Events++
 			}
 			if inputs != nil {
-				rec := map[string]any{"id": e.id, "mode": r.mode, "input": base64.StdEncoding.EncodeToString(r.input),
-					"quoted": fmt.Sprintf("%q", truncate(r.input, 200)), "len": len(r.input), "feat": r.feat,
+				rec := map[string]any{"id": e.id, "mode": r.mode, "len": len(r.input), "feat": r.feat,
 					"case": json.RawMessage(truncateCase(r.cse))}
+				if len(r.input) <= 512 { // longer inputs are mutants: the case regenerates them
+					rec["input"] = base64.StdEncoding.EncodeToString(r.input)
+					rec["quoted"] = fmt.Sprintf("%q", r.input)
+				}
 				b, _ := json.Marshal(rec)
 				inputs.Write(b)
 				inputs.WriteByte('\n')
@@ -269,13 +272,6 @@ func runCalls(in *bufio.Scanner, out *bufio.Writer, testdata, inputsPath string,
 	errMu.Lock()
 	defer errMu.Unlock()
 	return firstErr
-}
-
-func truncate(b []byte, n int) []byte {
-	if len(b) > n {
-		return b[:n]
-	}
-	return b
 }
 
 func truncateCase(s string) string {
